@@ -19,7 +19,7 @@ type CustomOpts struct {
 	MaxFaults int
 }
 
-var hookKinds = []string{"extend", "extendExt", "extendErr", "extendCtx", "extendConv", "extendRegex", "method", "methodErr", "mapFunc", "mapFuncErr", "mapNoSource", "underlying", "underlyingMethod", "extendErrCtx", "extendSame", "extendExtCtxRegex", "delegate", "delegateErr", "mapWhole", "mapWholePtr"}
+var hookKinds = []string{"extend", "extendExt", "extendErr", "extendCtx", "extendConv", "extendRegex", "method", "methodErr", "mapFunc", "mapFuncErr", "mapNoSource", "underlying", "underlyingMethod", "extendErrCtx", "extendSame", "extendExtCtxRegex", "delegate", "delegateErr", "mapWhole", "mapWholePtr", "underlyingErr"}
 
 // CustomCase builds one case mixing automatic rules with custom functions.
 func CustomCase(r *rand.Rand, name string, o CustomOpts) *Case {
@@ -55,7 +55,7 @@ func CustomCase(r *rand.Rand, name string, o CustomOpts) *Case {
 	for i := 1; i <= npairs; i++ {
 		kind := hookKinds[r.Intn(len(hookKinds))]
 		if o.Fallible && i == 1 {
-			kind = []string{"extendErr", "methodErr", "mapFuncErr", "extendErrCtx", "delegateErr"}[r.Intn(5)]
+			kind = []string{"extendErr", "methodErr", "mapFuncErr", "extendErrCtx", "delegateErr", "underlyingErr"}[r.Intn(6)]
 		}
 		if kind == "extendConv" && o.Format != "struct" {
 			kind = "extend"
@@ -244,12 +244,21 @@ func CustomCase(r *rand.Rand, name string, o CustomOpts) *Case {
 			sS.Fields = append(sS.Fields, F(f, Named(su)), F(f+"L", Slice(Named(su))))
 			tS.Fields = append(tS.Fields, F(f, Named(tu)), F(f+"L", Slice(Named(tu))))
 			underlyingFlag = true
-		case "underlying":
+		case "underlying", "underlyingErr":
 			sid := decl(fmt.Sprintf("SID%d", i), Basic("int"))
 			tid := decl(fmt.Sprintf("TID%d", i), Basic("string"))
 			fn := fmt.Sprintf("IntToStr%d", i)
 			if !underlying {
-				fmt.Fprintf(&funcsLocal, "func %s(v int) string { return fmt.Sprintf(\"%s:%%d\", v) }\n\n", fn, fn)
+				if kind == "underlyingErr" {
+					// fallible function on the underlying types, also reached by a declared method for the named pair
+					fmt.Fprintf(&funcsLocal, "func %s(v int) (string, error) {\n\tif err := vref.Fail(int64(v)); err != nil {\n\t\treturn \"\", err\n\t}\n\treturn fmt.Sprintf(\"%s:%%d\", v), nil\n}\n\n", fn, fn)
+					fallible = true
+					mname := fmt.Sprintf("MUE%d", i)
+					declared = append(declared, &Method{Name: mname, Params: []Param{{Name: "source", T: Named(sid), Role: "source"}}, Result: Named(tid), HasErr: true,
+						Spec: &vref.MethodSpec{Name: mname, Roles: []string{"source"}, HasErr: true}})
+				} else {
+					fmt.Fprintf(&funcsLocal, "func %s(v int) string { return fmt.Sprintf(\"%s:%%d\", v) }\n\n", fn, fn)
+				}
 				convLines = append(convLines, "extend "+fn)
 				specFuncs = append(specFuncs, &vref.FuncSpec{Key: "fn:" + fn, Kind: "extend", Roles: []string{"source"}})
 				callables["fn:"+fn] = "conv." + fn
